@@ -3,7 +3,10 @@
   §8.7 references, §10.2 environment records, §10.4.2/10.4.3 entering eval/function code, §10.5
   declaration binding instantiation, §10.6 the arguments object, §11.2.2/11.2.3 new and calls,
   §13 function definitions (incl. named function expressions), §13.2.1/13.2.2 [[Call]]/[[Construct]],
-  §15.3.4.3–5 apply/call/bind, §15.1.2.1 eval (direct vs indirect), §11.8.6 instanceof.
+  §15.3.4.3–5 apply/call/bind, §15.1.2.1 eval (direct vs indirect), §11.8.6 instanceof,
+  §12.10 `with` over §10.2.1.2 object environment records (incl. ImplicitThisValue, §11.2.3 step 6.b),
+  §12.6.4 for-in (enumerable own then inherited properties, shadowing, deletion during enumeration),
+  §12.7/12.8/12.12 break/continue/labelled statements with ES5 completion records and label sets.
   It is the ORACLE of the `fn` correspondence stream: otto itself is compared against it.
   (No theorem relates this layer to a transcription of otto's code yet – see DESIGN.md.)
 -/
@@ -31,16 +34,28 @@ structure Obj where
   props : List (String × V)
   proto : Option Nat
   kind : OKind
+  dontEnum : List String := []       -- names of the own properties whose [[Enumerable]] is false
 
 structure Env where
   vars : List (String × V)
   outer : Option Nat
   immut : List String := []          -- immutable bindings (the name of a named function expression)
+  obj : Option Nat := none           -- §10.2.1.2: the binding object of an object environment record
+                                     -- created by `with` (provideThis = true); `vars` is then unused
 
 structure St where
   heap : List Obj
   envs : List Env
   trace : List String
+  /-- false = ES5.  true = the one place where otto's completion VALUE is known to differ in this
+      layer (Dev region `forin_break_value`): a for-in left by `break` forgets the values produced
+      while enumerating the object it was on.  Nothing else depends on this flag. -/
+  ottoCV : Bool := false
+  /-- false = ES5.  true = otto's for-in decides "shadowed" when a property's turn comes, from the
+      properties the objects nearer the start have at that moment (Dev region `forin_revisit`): after
+      `delete o.a` of an already visited own `a`, an inherited `a` is visited although §12.6.4 says
+      "A property name must not be visited more than once in any enumeration". -/
+  ottoShadow : Bool := false
 
 structure Ctx where
   env : Nat          -- LexicalEnvironment
@@ -52,10 +67,28 @@ inductive Res (α : Type) where
   | throw (v : V) (σ : St)
   | fuel
 
-/-- statement completion: normal with the value of the last expression statement, or return -/
+/-- statement completion (§8.9): (type, value, target); `none` value = empty; throw is `Res.throw` -/
 inductive Comp where
   | normal (v : Option V)
   | ret (v : V)
+  | brk (v : Option V) (l : Option String)
+  | cont (v : Option V) (l : Option String)
+
+def Comp.val : Comp → Option V
+  | .normal v => v | .ret v => some v | .brk v _ => v | .cont v _ => v
+
+/-- "stmt.target is in the current label set" – the empty target belongs to the label set of every
+    iteration statement (§12.12) -/
+def inLs (l : Option String) (ls : List String) : Bool :=
+  match l with
+  | none => true
+  | some x => ls.contains x
+
+/-- V := stmt.value unless that is empty -/
+def orV (a b : Option V) : Option V :=
+  match a with
+  | some v => some v
+  | none => b
 
 def gObj : Nat := 0        -- the global object
 def objProto : Nat := 1    -- Object.prototype
@@ -64,7 +97,8 @@ def fnProto : Nat := 2     -- Function.prototype
 def initSt : St :=
   { heap := [ { props := [], proto := some objProto, kind := .plain },
               { props := [], proto := none, kind := .plain },
-              { props := [("call", .ref 3), ("apply", .ref 4), ("bind", .ref 5)], proto := some objProto, kind := .builtin "proto" },
+              { props := [("call", .ref 3), ("apply", .ref 4), ("bind", .ref 5)], proto := some objProto, kind := .builtin "proto",
+                dontEnum := ["call", "apply", "bind"] },
               { props := [], proto := some fnProto, kind := .builtin "call" },
               { props := [], proto := some fnProto, kind := .builtin "apply" },
               { props := [], proto := some fnProto, kind := .builtin "bind" } ],
@@ -248,7 +282,24 @@ def getProp (σ : St) (base : V) (p : String) : Res V :=
       | _ => .ok plain σ
   | _ => .ok .undef σ
 
-/-- [[Put]] (§8.12.5; all properties here are writable data properties) -/
+def isFnKind : OKind → Bool
+  | .func .. => true | .bound .. => true | .builtin _ => true | _ => false
+
+/-- [[CanPut]] (§8.12.4) as far as this layer has read-only properties: the `length` of a function
+    object (§13.2 step 15, §15.3.4.5 step 15–17: [[Writable]] false) cannot be put, own or inherited -/
+def canPut (σ : St) : Nat → Nat → String → Bool
+  | 0, _, _ => true
+  | n+1, a, p =>
+    match σ.obj? a with
+    | none => true
+    | some o =>
+      match lookupA p o.props with
+      | some _ => !(p == "length" && isFnKind o.kind)
+      | none => match o.proto with
+        | some q => canPut σ n q p
+        | none => true
+
+/-- [[Put]] (§8.12.5; data properties only; a put that [[CanPut]] refuses is ignored: non-strict code) -/
 def putProp (σ : St) (base : V) (p : String) (v : V) : Res Unit :=
   match base with
   | .undef => throwErr σ "TypeError"
@@ -257,6 +308,7 @@ def putProp (σ : St) (base : V) (p : String) (v : V) : Res Unit :=
     match σ.obj? a with
     | none => .ok () σ
     | some o =>
+      if !canPut σ (σ.heap.length + 1) a p then .ok () σ else
       let σ1 : St :=
         match o.kind with
         | .args map env =>
@@ -281,13 +333,145 @@ def delProp (σ : St) (base : V) (p : String) : Res V :=
     match σ.obj? a with
     | none => .ok (.bool true) σ
     | some o =>
+      -- [[Configurable]] false: a function's length and prototype (§13.2), a bound function's length
+      let fixed : Bool := match o.kind with
+        | .func .. => p == "length" || p == "prototype"
+        | .bound .. => p == "length"
+        | _ => false
+      if fixed && (lookupA p o.props).isSome then .ok (.bool false) σ else
       let kind' : OKind := match o.kind with
         | .args map env => (match idx? p with
           | some i => .args (setNth map i none) env
           | none => o.kind)
         | k => k
-      .ok (.bool true) (σ.setObj a { o with props := removeA p o.props, kind := kind' })
+      .ok (.bool true) (σ.setObj a { o with props := removeA p o.props, kind := kind', dontEnum := o.dontEnum.filter (· != p) })
   | _ => .ok (.bool true) σ
+
+/-- [[HasProperty]] (§8.12.6): own or inherited -/
+def hasProp (σ : St) : Nat → Nat → String → Bool
+  | 0, _, _ => false
+  | n+1, a, p =>
+    match σ.obj? a with
+    | none => false
+    | some o =>
+      match lookupA p o.props with
+      | some _ => true
+      | none => match o.proto with
+        | some q => hasProp σ n q p
+        | none => false
+
+/-- §10.2.2.1 GetIdentifierReference: the environment whose record has the binding (`none` =
+    unresolvable).  Declarative records: HasBinding; object records (the global one, and those made
+    by `with`): [[HasProperty]] of the binding object. -/
+def envResolve (σ : St) : Nat → Nat → String → Option Nat
+  | 0, _, _ => none
+  | n+1, i, x =>
+    if i = 0 then (if hasProp σ (σ.heap.length + 1) gObj x then some 0 else none)
+    else match σ.envs[i]? with
+      | none => none
+      | some e =>
+        let has : Bool := match e.obj with
+          | some a => hasProp σ (σ.heap.length + 1) a x
+          | none => (lookupA x e.vars).isSome
+        if has then some i
+        else match e.outer with
+          | some j => envResolve σ n j x
+          | none => none
+
+/-- GetBindingValue on the record of environment `i` (§10.2.1.1.4 / §10.2.1.2.4) -/
+def envGet (σ : St) (i : Nat) (x : String) : Res V :=
+  if i = 0 then getProp σ (.ref gObj) x
+  else match σ.envs[i]? with
+    | none => .ok .undef σ
+    | some e =>
+      match e.obj with
+      | some a => getProp σ (.ref a) x
+      | none => .ok ((lookupA x e.vars).getD .undef) σ
+
+/-- SetMutableBinding on the record of environment `i` (§10.2.1.1.3 / §10.2.1.2.3: [[Put]] on the
+    binding object, which creates the property if it has been deleted since the reference was made) -/
+def envPut (σ : St) (i : Nat) (x : String) (v : V) : Res Unit :=
+  if i = 0 then putProp σ (.ref gObj) x v
+  else match σ.envs[i]? with
+    | none => .ok () σ
+    | some e =>
+      match e.obj with
+      | some a => putProp σ (.ref a) x v
+      | none => if e.immut.contains x then .ok () σ else .ok () (σ.setEnv i { e with vars := updateA x v e.vars })
+
+/-- PutValue on an identifier reference (§8.7.2; non-strict: unresolvable creates a global property) -/
+def putIdent (σ : St) (r : Option Nat) (x : String) (v : V) : Res Unit :=
+  match r with
+  | some i => envPut σ i x v
+  | none => putProp σ (.ref gObj) x v
+
+/-- ImplicitThisValue of the record of environment `i` (§10.2.1.1.6 / §10.2.1.2.6): the binding object
+    for a `with` environment, undefined otherwise (the global object record has provideThis = false) -/
+def implicitThis (σ : St) (i : Nat) : V :=
+  if i = 0 then .undef
+  else match σ.envs[i]? with
+    | some e => (match e.obj with | some a => .ref a | none => .undef)
+    | none => .undef
+
+/-- ToObject (§9.9).  Wrapper objects carry what for-in can see: a String object's index properties
+    (enumerable) and length (not); Number/Boolean objects have no own properties.  The built-in
+    prototypes have no enumerable properties, so Object.prototype stands in for them. -/
+def toObject (σ : St) (v : V) : Res Nat :=
+  match v with
+  | .undef => throwErr σ "TypeError"
+  | .null => throwErr σ "TypeError"
+  | .ref a => .ok a σ
+  | .str s =>
+    let cs := s.toList
+    let idx : List (String × V) := ((List.range cs.length).zip cs).map fun (i, ch) => (toString i, V.str (String.singleton ch))
+    let (a, σ') := σ.alloc { props := idx ++ [("length", .num cs.length)], proto := some objProto, kind := .plain, dontEnum := ["length"] }
+    .ok a σ'
+  | _ =>
+    let (a, σ') := σ.alloc { props := [], proto := some objProto, kind := .plain }
+    .ok a σ'
+
+/-- §12.6.4: the properties for-in is to visit, as (owner, name): the enumerable own properties of the
+    object, then those of its prototype, and so on; a property of a prototype is left out if an object
+    nearer the start of the chain has a property of that name, enumerable or not.  (ES5 leaves the
+    order open; creation order is used here and generated programs do not depend on it.) -/
+def enumKeys (σ : St) : Nat → Nat → List String → List (Nat × String)
+  | 0, _, _ => []
+  | n+1, a, seen =>
+    match σ.obj? a with
+    | none => []
+    | some o =>
+      let own := o.props.map (·.1)
+      let ks := own.filter fun k => !(o.dontEnum.contains k) && !(seen.contains k)
+      let rest := match o.proto with
+        | some q => enumKeys σ n q (seen ++ own)
+        | none => []
+      ks.map (fun k => (a, k)) ++ rest
+
+/-- (model side of `forin_revisit`) every enumerable property of the chain, shadowed or not -/
+def enumKeysAll (σ : St) : Nat → Nat → List (Nat × String)
+  | 0, _ => []
+  | n+1, a =>
+    match σ.obj? a with
+    | none => []
+    | some o =>
+      let ks := (o.props.map (·.1)).filter fun k => !(o.dontEnum.contains k)
+      let rest := match o.proto with
+        | some q => enumKeysAll σ n q
+        | none => []
+      ks.map (fun k => (a, k)) ++ rest
+
+/-- (model side of `forin_revisit`) does an object from `a` up to, not including, `owner` have `k` now? -/
+def shadowedNow (σ : St) : Nat → Nat → Nat → String → Bool
+  | 0, _, _, _ => false
+  | n+1, a, owner, k =>
+    if a = owner then false
+    else match σ.obj? a with
+      | none => false
+      | some o =>
+        if (lookupA k o.props).isSome then true
+        else match o.proto with
+          | some q => shadowedNow σ n q owner k
+          | none => false
 
 def nparams : FE → Nat
   | .func _ ps _ _ _ => ps.length
@@ -296,8 +480,9 @@ def nparams : FE → Nat
 /-- §13.2 Creating Function Objects -/
 def mkFunc (σ : St) (code : FE) (env : Nat) : V × St :=
   let (f, σ1) := σ.alloc { props := [], proto := some fnProto, kind := .func code env }
-  let (p, σ2) := σ1.alloc { props := [("constructor", .ref f)], proto := some objProto, kind := .plain }
-  let fo : Obj := { props := [("length", .num (nparams code)), ("prototype", .ref p)], proto := some fnProto, kind := .func code env }
+  let (p, σ2) := σ1.alloc { props := [("constructor", .ref f)], proto := some objProto, kind := .plain, dontEnum := ["constructor"] }
+  let fo : Obj := { props := [("length", .num (nparams code)), ("prototype", .ref p)], proto := some fnProto, kind := .func code env,
+                    dontEnum := ["length", "prototype"] }
   (.ref f, σ2.setObj f fo)
 
 /-- §10.6 CreateArgumentsObject (non-strict: mapped) -/
@@ -308,7 +493,8 @@ def mkArguments (σ : St) (params : List String) (args : List V) (env : Nat) : V
     match params[i]? with
     | some name => if (params.drop (i+1)).contains name then none else some name
     | none => none
-  let (a, σ') := σ.alloc { props := idxProps ++ [("length", .num args.length)], proto := some objProto, kind := .args map env }
+  let (a, σ') := σ.alloc { props := idxProps ++ [("length", .num args.length)], proto := some objProto, kind := .args map env,
+                           dontEnum := ["length"] }
   (.ref a, σ')
 
 def evalListToArgs (σ : St) (arr : V) : List V :=
@@ -331,12 +517,35 @@ def evalE : Nat → FE → Ctx → St → Res V
     | .lit v => .ok (ofPV v) σ
     | .this => .ok c.this σ
     | .var x =>
-      match envLookup σ (σ.envs.length + 1) c.env x with
-      | some v => .ok v σ
+      match envResolve σ (σ.envs.length + 1) c.env x with
+      | some i => envGet σ i x
       | none => throwErr σ "ReferenceError"
     | .assign x e1 =>
+      -- §11.13.1: the left-hand reference is made BEFORE the right-hand side is evaluated
+      let r := envResolve σ (σ.envs.length + 1) c.env x
       match evalE n e1 c σ with
-      | .ok v σ1 => .ok v (envAssign σ1 (σ1.envs.length + 1) c.env x v)
+      | .ok v σ1 => (match putIdent σ1 r x v with
+        | .ok _ σ2 => .ok v σ2
+        | .throw t σ2 => .throw t σ2
+        | .fuel => .fuel)
+      | r => r
+    | .val e1 => evalE n e1 c σ
+    | .defNE o p e1 =>
+      -- §15.2.3.6 with a complete data descriptor whose [[Enumerable]] is false; returns the object
+      match evalE n o c σ with
+      | .ok b σ1 => match evalE n e1 c σ1 with
+        | .ok v σ2 =>
+          (match b with
+           | .ref a =>
+             (match σ2.obj? a with
+              | some ob =>
+                let props' := match lookupA p ob.props with
+                  | some _ => updateA p v ob.props
+                  | none => ob.props ++ [(p, v)]
+                .ok b (σ2.setObj a { ob with props := props', dontEnum := p :: ob.dontEnum.filter (· != p) })
+              | none => .ok b σ2)
+           | _ => throwErr σ2 "TypeError")
+        | r => r
       | r => r
     | .get o p =>
       match evalE n o c σ with
@@ -379,12 +588,25 @@ def evalE : Nat → FE → Ctx → St → Res V
         | r => r
       | r => r
     | .call f args =>
-      match evalE n f c σ with
-      | .ok fv σ1 => match evalArgs n args c σ1 with
-        | .ok as σ2 => callFn n σ2 fv .undef as
-        | .throw t σ2 => .throw t σ2
-        | .fuel => .fuel
-      | r => r
+      (match f with
+       | .var x =>
+         -- §11.2.3 step 6.b: the callee is an identifier reference; this = ImplicitThisValue of its record
+         match envResolve σ (σ.envs.length + 1) c.env x with
+         | none => throwErr σ "ReferenceError"
+         | some i =>
+           match envGet σ i x with
+           | .ok fv σ1 => (match evalArgs n args c σ1 with
+             | .ok as σ2 => callFn n σ2 fv (implicitThis σ i) as
+             | .throw t σ2 => .throw t σ2
+             | .fuel => .fuel)
+           | r => r
+       | _ =>
+         match evalE n f c σ with
+         | .ok fv σ1 => (match evalArgs n args c σ1 with
+           | .ok as σ2 => callFn n σ2 fv .undef as
+           | .throw t σ2 => .throw t σ2
+           | .fuel => .fuel)
+         | r => r)
     | .mcall o p args =>
       match evalE n o c σ with
       | .ok b σ1 => match getProp σ1 b p with
@@ -452,8 +674,10 @@ def evalE : Nat → FE → Ctx → St → Res V
     | .typeof e1 =>
       (match e1 with
        | .var x =>
-         match envLookup σ (σ.envs.length + 1) c.env x with
-         | some v => .ok (.str (typeofV σ v)) σ
+         match envResolve σ (σ.envs.length + 1) c.env x with
+         | some i => (match envGet σ i x with
+           | .ok v σ1 => .ok (.str (typeofV σ1 v)) σ1
+           | r => r)
          | none => .ok (.str "undefined") σ                 -- §11.4.3: unresolvable reference
        | _ => match evalE n e1 c σ with
          | .ok v σ1 => .ok (.str (typeofV σ1 v)) σ1
@@ -483,8 +707,8 @@ def runCode : Nat → List String → FDecls → FSs → Ctx → St → Res V
     | .ok _ σ1 =>
       let σ2 := vs.foldl (fun s x => bindIn s c.venv x .undef false) σ1
       match evalSs n body c σ2 with
-      | .ok (.normal v) σ3 => .ok (v.getD .undef) σ3
       | .ok (.ret v) σ3 => .ok v σ3
+      | .ok comp σ3 => .ok (comp.val.getD .undef) σ3       -- (break/continue cannot leave a program)
       | .throw t σ3 => .throw t σ3
       | .fuel => .fuel
     | .throw t σ1 => .throw t σ1
@@ -552,7 +776,7 @@ def callFn : Nat → St → V → V → List V → Res V
             match thisArg with
             | .ref t =>
               let (b, σ1) := σ.alloc { props := [("length", .num (if bl < 0 then 0 else bl))], proto := some fnProto,
-                                       kind := .bound t (args.head?.getD .undef) (args.drop 1) }
+                                       kind := .bound t (args.head?.getD .undef) (args.drop 1), dontEnum := ["length"] }
               .ok (.ref b) σ1
             | _ => throwErr σ "TypeError"
           else throwErr σ "TypeError"
@@ -583,7 +807,7 @@ def callFn : Nat → St → V → V → List V → Res V
               let σ5 := vs.foldl (fun s x => bindIn s i x .undef false) σ4
               match evalSs n body c σ5 with
               | .ok (.ret v) σ6 => .ok v σ6
-              | .ok (.normal _) σ6 => .ok .undef σ6
+              | .ok _ σ6 => .ok .undef σ6
               | .throw t σ6 => .throw t σ6
               | .fuel => .fuel
             | .throw t σ3 => .throw t σ3
@@ -647,9 +871,10 @@ def hasInstance : Nat → St → V → V → Res V
         | _ => throwErr σ "TypeError"
     | _ => throwErr σ "TypeError"
 
-def evalS : Nat → FS → Ctx → St → Res Comp
-  | 0, _, _, _ => .fuel
-  | n+1, s, c, σ =>
+/-- `ls` = the current label set of the statement (§12.12) -/
+def evalS : Nat → FS → Ctx → List String → St → Res Comp
+  | 0, _, _, _, _ => .fuel
+  | n+1, s, c, ls, σ =>
     match s with
     | .expr e =>
       match evalE n e c σ with
@@ -667,7 +892,7 @@ def evalS : Nat → FS → Ctx → St → Res Comp
       | .ok v σ1 => if truthy v then evalSs n t c σ1 else evalSs n e c σ1
       | .throw t' σ1 => .throw t' σ1
       | .fuel => .fuel
-    | .whileS ce b => evalWhile n ce b c σ none
+    | .whileS ce b => evalWhile n ce b c ls σ none
     | .throwS e =>
       match evalE n e c σ with
       | .ok v σ1 => .throw v σ1
@@ -694,35 +919,127 @@ def evalS : Nat → FS → Ctx → St → Res Comp
            | .ok (.normal _) σ3 => .throw t σ3
            | r => r)
       else r1
+    | .varS x e =>
+      -- §12.2: the identifier is resolved as in §11.1.2 (through the scope chain, so possibly to a
+      -- `with` object), then the initialiser is evaluated, then PutValue; completion (normal, empty)
+      let r := envResolve σ (σ.envs.length + 1) c.env x
+      match evalE n e c σ with
+      | .ok v σ1 => (match putIdent σ1 r x v with
+        | .ok _ σ2 => .ok (.normal none) σ2
+        | .throw t σ2 => .throw t σ2
+        | .fuel => .fuel)
+      | .throw t σ1 => .throw t σ1
+      | .fuel => .fuel
+    | .block b => evalSs n b c σ
+    | .withS oe b =>
+      -- §12.10: the object environment exists exactly while the body is evaluated; every way of
+      -- leaving the body (any completion, or an exception) continues with the old environment `c`
+      match evalE n oe c σ with
+      | .ok v σ1 =>
+        (match toObject σ1 v with
+         | .ok a σ2 =>
+           let (i, σ3) := σ2.newEnv { vars := [], outer := some c.env, obj := some a }
+           evalSs n b { c with env := i } σ3
+         | .throw t σ2 => .throw t σ2
+         | .fuel => .fuel)
+      | .throw t σ1 => .throw t σ1
+      | .fuel => .fuel
+    | .forIn _ x oe b =>
+      -- §12.6.4 (both productions: `var x` has been hoisted; the name is resolved in each iteration)
+      match evalE n oe c σ with
+      | .ok v σ1 =>
+        (match v with
+         | .undef => .ok (.normal none) σ1
+         | .null => .ok (.normal none) σ1
+         | _ =>
+           match toObject σ1 v with
+           | .ok a σ2 =>
+             let keys := if σ2.ottoShadow then enumKeysAll σ2 (σ2.heap.length + 1) a else enumKeys σ2 (σ2.heap.length + 1) a []
+             evalForIn n x b c ls σ2 keys none none a a
+           | .throw t σ2 => .throw t σ2
+           | .fuel => .fuel)
+      | .throw t σ1 => .throw t σ1
+      | .fuel => .fuel
+    | .label l s1 =>
+      -- §12.12
+      match evalS n s1 c (l :: ls) σ with
+      | .ok (.brk v (some l')) σ1 => if l' = l then .ok (.normal v) σ1 else .ok (.brk v (some l')) σ1
+      | r => r
+    | .brk l => .ok (.brk none l) σ
+    | .cont l => .ok (.cont none l) σ
 
-def evalWhile : Nat → FE → FSs → Ctx → St → Option V → Res Comp
-  | 0, _, _, _, _, _ => .fuel
-  | n+1, ce, b, c, σ, last =>
+/-- §12.6.2 -/
+def evalWhile : Nat → FE → FSs → Ctx → List String → St → Option V → Res Comp
+  | 0, _, _, _, _, _, _ => .fuel
+  | n+1, ce, b, c, ls, σ, last =>
     match evalE n ce c σ with
     | .ok v σ1 =>
       if truthy v then
         match evalSs n b c σ1 with
-        | .ok (.normal l) σ2 => evalWhile n ce b c σ2 (match l with | some x => some x | none => last)
+        | .ok comp σ2 =>
+          let last' := orV comp.val last
+          (match comp with
+           | .normal _ => evalWhile n ce b c ls σ2 last'
+           | .cont _ l => if inLs l ls then evalWhile n ce b c ls σ2 last' else .ok comp σ2
+           | .brk _ l => if inLs l ls then .ok (.normal last') σ2 else .ok comp σ2
+           | .ret _ => .ok comp σ2)
         | r => r
       else .ok (.normal last) σ1
     | .throw t σ1 => .throw t σ1
     | .fuel => .fuel
 
+/-- §12.6.4 step 6–7 over the list of (owner, name) still to visit.  `res` = value after the objects
+    of the chain already finished, `ev` = value produced while on object `cur`; V of the standard is
+    `orV ev res` (the split only matters for `St.ottoCV`); `root` = the object being enumerated
+    (only used by `St.ottoShadow`). -/
+def evalForIn : Nat → String → FSs → Ctx → List String → St → List (Nat × String) → Option V → Option V → Nat → Nat → Res Comp
+  | 0, _, _, _, _, _, _, _, _, _, _ => .fuel
+  | n+1, x, b, c, ls, σ, keys, res, ev, cur, root =>
+    match keys with
+    | [] => .ok (.normal (orV ev res)) σ
+    | (a, k) :: r =>
+      let res1 := if a = cur then res else orV ev res
+      let ev1 := if a = cur then ev else none
+      -- "If a property that has not yet been visited during enumeration is deleted, then it will not be visited"
+      let present : Bool := match σ.obj? a with
+        | some o => (lookupA k o.props).isSome
+        | none => false
+      let present := present && !(σ.ottoShadow && shadowedNow σ (σ.heap.length + 1) root a k)
+      if !present then evalForIn n x b c ls σ r res1 ev1 a root
+      else
+        match putIdent σ (envResolve σ (σ.envs.length + 1) c.env x) x (.str k) with
+        | .ok _ σ1 =>
+          (match evalSs n b c σ1 with
+           | .ok comp σ2 =>
+             let ev2 := orV comp.val ev1
+             (match comp with
+              | .normal _ => evalForIn n x b c ls σ2 r res1 ev2 a root
+              | .cont _ l => if inLs l ls then evalForIn n x b c ls σ2 r res1 ev2 a root else .ok comp σ2
+              | .brk _ l =>
+                if inLs l ls then .ok (.normal (if σ2.ottoCV then res1 else orV ev2 res1)) σ2 else .ok comp σ2
+              | .ret _ => .ok comp σ2)
+           | r => r)
+        | .throw t σ1 => .throw t σ1
+        | .fuel => .fuel
+
+/-- §12.1 statement lists: (s.type, V, s.target) with V = s.value unless empty, then the value so far -/
 def evalSs : Nat → FSs → Ctx → St → Res Comp
   | 0, _, _, _ => .fuel
   | _+1, .nil, _, σ => .ok (.normal none) σ
   | n+1, .cons s r, c, σ =>
-    match evalS n s c σ with
+    match evalS n s c [] σ with
     | .ok (.normal v) σ1 =>
       (match evalSs n r c σ1 with
        | .ok (.normal none) σ2 => .ok (.normal v) σ2
+       | .ok (.brk none l) σ2 => .ok (.brk v l) σ2
+       | .ok (.cont none l) σ2 => .ok (.cont v l) σ2
        | x => x)
     | x => x
 
 end
 
 /-- §10.4.1 global code: bindings on the global object, this = the global object -/
-def runProgram (n : Nat) (vs : List String) (ds : FDecls) (body : FSs) : Res V :=
-  runCode n vs ds body { env := 0, venv := 0, this := .ref gObj } initSt
+def runProgram (n : Nat) (vs : List String) (ds : FDecls) (body : FSs) (ottoCV : Bool := false) (ottoShadow : Bool := false) : Res V :=
+  runCode n vs ds body { env := 0, venv := 0, this := .ref gObj } { initSt with ottoCV := ottoCV, ottoShadow := ottoShadow }
 
 end OttoVerif.C01.Fn
